@@ -69,6 +69,11 @@ def elem_of(t):
         if is_call(coll, "enumerate"):
             return ("enumitem", coll)
         return ("elem", coll)
+    if t[0] == "sub" and t[2] == ("const", 0) and t[1][0] == "iter":
+        # the key in `for n, data in G.nodes(data=...)` / `for u, v, data in G.edges(data=...)` is an element of G.nodes / G.edges
+        c = t[1][2]
+        if c[0] == "call" and c[2][0] == "attr" and c[2][2] == "nodes" and (c[3] or c[4]):
+            return ("elem", ("attr", c[2][1], "nodes"))
     if t[0] == "sub" and t[2][0] == "const" and isinstance(t[2][1], int):
         inner = elem_of(t[1])
         if inner and inner[0] == "item":
@@ -170,6 +175,23 @@ def guards_of(fi, nid):
             out.append(strip_not(n.ast.test, True) + (n.id,))
         elif in_f and not in_t:
             out.append(strip_not(n.ast.test, False) + (n.id,))
+        elif not in_t and not in_f and n.kind == "if" and n.id != nid and cfg.dominates(n.id, nid):
+            # guard clause: one arm always leaves (continue / break / return / raise), so the code behind the `if` runs only
+            # when the other arm was taken
+            no_exc = lambda a, b, l: l != "exc"
+            leaves = {}
+            for label in ("T", "F"):
+                if label not in arms:
+                    continue
+                start = arms[label]
+                if start == n.id:
+                    continue
+                reach = {start} | cfg.reachable_from(start, avoid={n.id}, edge_filter=no_exc)
+                leaves[label] = nid not in reach
+            if leaves.get("T") and not leaves.get("F", False):
+                out.append(strip_not(n.ast.test, False) + (n.id,))
+            elif leaves.get("F") and not leaves.get("T", False):
+                out.append(strip_not(n.ast.test, True) + (n.id,))
     return out
 
 
@@ -253,3 +275,20 @@ def call_arg(call, index, name):
         if kw.arg == name:
             return kw.value
     return None
+
+
+def scope_functions(repo, fi):
+    """fi plus the functions of its module that are not in the confirmed inventory and reachable from it: helpers that a
+    refactoring split off and that could not be analysed in place (cgslint/inline.py)."""
+    from ..inline import known_functions
+    known = known_functions().get(fi.module.name, set())
+    out, work, seen = [fi], [fi], {fi.fq}
+    while work:
+        f = work.pop()
+        for call, nid in f.flow.calls():
+            t = repo.resolve_call(f, call)
+            if t.kind == "repo" and t.fi is not None and t.fi.module is fi.module and t.fi.qualname not in known and t.fi.fq not in seen:
+                seen.add(t.fi.fq)
+                out.append(t.fi)
+                work.append(t.fi)
+    return out
